@@ -1,5 +1,5 @@
 """C13 — stop, skip, advance and last control the run as documented."""
-from checks import runfam
+from checks import runfam, mcrun
 
 PID = "C13"
 JUDGED = {"stopped", "advance", "extra_event", "missing_event", "returned", "final_returned", "votes",
@@ -8,7 +8,7 @@ JUDGED = {"stopped", "advance", "extra_event", "missing_event", "returned", "fin
 
 def main(tier):
     n = 700 if tier == "quick" else 12000
-    return runfam.run(PID, tier, groups=("core", "control"), judged=JUDGED, ncases=n, seed_salt=1300)
+    return runfam.run(PID, tier, groups=("core", "control"), judged=JUDGED, ncases=n, seed_salt=1300, pre=lambda rep: mcrun.run_pool(rep, tier, {"returned", "unmatched", "vars", "printed", "matchCount", "scanCount"}, PID))
 
 
 def replay(path):
